@@ -358,6 +358,26 @@ def gen_conc_scenarios(seed, n, kinds=None):
                 burst[c] = [L(c, r.choice(menus[c]))]
             order = list(range(1, k + 1))
             r.shuffle(order)
+            if r.random() < 0.6:
+                # a command that checks something, queued BEFORE a command of another connection that invalidates
+                # exactly that check (the pair a non-atomic handler gets wrong)
+                pairs = [((2, "TOPIC #c :t2"), (1, "MODE #c +t")), ((2, "TOPIC #c :t2"), (1, "KICK #c n2")),
+                         ((3, "JOIN #c"), (1, "MODE #c +i")), ((3, "JOIN #c"), (1, "MODE #c +k sesame")),
+                         ((3, "JOIN #c"), (1, "MODE #c +l 2")), ((3, "JOIN #c"), (1, "MODE #c +b n3!*@*")),
+                         ((2, "PRIVMSG #c :m2"), (1, "MODE #c +m")), ((2, "PRIVMSG #c :m2"), (1, "KICK #c n2")),
+                         ((2, "PRIVMSG #c :m2"), (1, "MODE #c +b n2!*@*")), ((3, "PRIVMSG #c :m3"), (1, "MODE #c +n")),
+                         ((2, "INVITE n3 #c"), (1, "KICK #c n2")), ((2, "INVITE n3 #c"), (1, "MODE #c -o n2")),
+                         ((2, "KICK #c n3"), (1, "MODE #c -o n2")), ((2, "MODE #c +v n3"), (1, "MODE #c -o n2")),
+                         ((2, "MODE #c +m"), (1, "MODE #c -o n2")), ((2, "PART #c"), (1, "KICK #c n2")),
+                         ((2, "NICK x9"), (3, "NICK x9")), ((3, "NICK n9"), (1, "KICK #c n3")),
+                         ((2, "NICK x2"), (1, "MODE #c +o n2")), ((2, "NICK x2"), (1, "KICK #c n2")),
+                         ((3, "JOIN #c"), (2, "JOIN #c")), ((2, "TOPIC #c :t2"), (1, "MODE #c -o n2")),
+                         ((2, "NAMES #c"), (1, "MODE #c +s")), ((3, "WHOIS n2"), (2, "MODE n2 +i")),
+                         ((3, "PRIVMSG n2 :p3"), (2, "NICK x2")), ((3, "PRIVMSG n2 :p3"), (2, "AWAY :gone"))]
+                (ca, ta), (cb, tb) = r.choice(pairs)
+                burst[ca], burst[cb] = [L(ca, ta)], [L(cb, tb)]
+                rest = [c for c in order if c not in (ca, cb)]
+                order = [ca, cb] + rest if r.random() < 0.8 else [cb, ca] + rest
             setup.append("gorder " + " ".join(str(x) for x in order))
         elif kind == "joinrace":
             k = r.choice([2, 3])
